@@ -110,7 +110,7 @@ def text(e):
         return '%s %s %s' % (text(e.operand1), e.operator, text(e.operand2))
     if t == 'NotNode':
         return 'not %s' % text(e.operand)
-    if t in ('AddNode', 'SubNode', 'MulNode', 'DivNode', 'IntBinopNode', 'NumBinopNode', 'BinopNode'):
+    if t in ('AddNode', 'SubNode', 'MulNode', 'DivNode', 'IntBinopNode', 'NumBinopNode', 'BinopNode', 'PowNode', 'ModNode'):
         return '%s %s %s' % (text(e.operand1), getattr(e, 'operator', '?'), text(e.operand2))
     if t == 'TupleNode':
         return '(%s)' % ', '.join(text(a) for a in e.args)
